@@ -207,28 +207,23 @@ class NatRef:
 
 class SymData:
     def __init__(self):
-        self.arr = z3.K(mem.IDX, z3.BitVecVal(0, 8))
-        self.length = 0
-        self.cap = 0
+        self.segs = mem.Segs()
+
+    @property
+    def length(self):
+        return self.segs.length
+
+    @property
+    def cap(self):
+        return self.segs.cap
 
     def append(self, bs, n=None):
         n = len(bs) if n is None else n
-        cn = mem._c(n)
-        pos = bv(self.length)
-        for k, b in enumerate(bs):
-            p = pos + z3.BitVecVal(k, W)
-            t = mem.lo8(bv(b))
-            if cn is None:
-                t = z3.If(z3.BitVecVal(k, W) < bv(n), t, z3.Select(self.arr, p))
-            elif k >= cn:
-                break
-            self.arr = z3.Store(self.arr, p, t)
-        self.length = mem._norm(SymInt(bv(self.length) + bv(n)))
-        self.cap += len(bs) if cn is None else cn
+        self.segs.append_cells([mem.lo8(bv(b)) if not isinstance(b, int) else mem.k8(b) for b in bs], n)
         return self
 
     def term_at(self, i):
-        return z3.Select(self.arr, bv(i))
+        return self.segs.term_at(i)
 
     def at(self, i):
         return SymInt(mem.zx(self.term_at(i)))
@@ -237,10 +232,12 @@ class SymData:
 class NatData:
     def __init__(self):
         self.data = bytearray()
+        self.cap = 0
 
     def append(self, bs, n=None):
         n = len(bs) if n is None else n
         self.data += bytes(bs[:n])
+        self.cap += len(bs)
         return self
 
     @property
@@ -248,7 +245,7 @@ class NatData:
         return len(self.data)
 
     def at(self, i):
-        return self.data[i] if 0 <= i < len(self.data) else -1
+        return self.data[i] if 0 <= i < len(self.data) else 0
 
 
 # ------------------------------------------------------------------------------------------------
@@ -270,7 +267,8 @@ class SymEnv:
         if name in self.pc.inputs:
             raise RuntimeError("duplicate input " + name)
         self.pc.inputs[name] = v
-        self.pc.solver.add(v >= z3.BitVecVal(lo, W), v <= z3.BitVecVal(hi, W))
+        self.pc.add(z3.And(v >= z3.BitVecVal(lo, W), v <= z3.BitVecVal(hi, W)))
+        core.declare_range(v, lo, hi)
         return SymInt(v)
 
     def bool(self, name):
@@ -293,13 +291,25 @@ class SymEnv:
         self.pc.fixed[name] = r
         return r
 
+    def split(self, n, lo, hi):
+        """Case-split a derived quantity (e.g. the byte length of a varint) into a concrete int by
+        decisions; the code under test forks on the same quantity anyway, this only does it earlier so
+        that stream positions stay linear terms."""
+        c = mem._c(n)
+        if c is not None:
+            return c
+        for k in range(lo, hi):
+            if n == k:
+                return k
+        return hi
+
     def f32(self, name):
         v = z3.BitVec(name, 32)
         self.pc.inputs[name] = v
         # exclude signalling NaNs: CPython converts float32 <-> double through the FPU, which quiets them
         exp_all = z3.Extract(30, 23, v) == z3.BitVecVal(0xFF, 8)
         snan = z3.And(exp_all, z3.Extract(22, 22, v) == z3.BitVecVal(0, 1), z3.Extract(21, 0, v) != z3.BitVecVal(0, 22))
-        self.pc.solver.add(z3.Not(snan))
+        self.pc.add(z3.Not(snan))
         return mem.SymFloat(v)
 
     def f64(self, name):
@@ -348,8 +358,7 @@ class SymEnv:
 
     def poke_buffer(self, buf, cells):
         """buf[j] = cells[j] for the given list (initial buffer garbage = symbolic inputs)"""
-        for j, b in enumerate(cells):
-            buf.arr = z3.Store(buf.arr, z3.BitVecVal(j, W), mem.lo8(bv(b)))
+        buf.set_cells([mem.lo8(bv(b)) for b in cells])
 
     def buf_byte(self, buf, j):
         return SymInt(mem.zx(buf.byte_term(j)))
@@ -388,6 +397,9 @@ class NatEnv:
 
     def choice(self, name, n):
         return self._get(name, 0)
+
+    def split(self, n, lo, hi):
+        return n
 
     def f32(self, name):
         return struct.unpack("<f", (self._get(name, 0) & 0xFFFFFFFF).to_bytes(4, "little"))[0]
@@ -570,9 +582,9 @@ def run_job(job):
             natobs = nat.obs
             if err:
                 res["inconclusive"].append("%s: native replay of a path failed to run: %s" % (label, err))
-            elif nat.failed:
-                res["inconclusive"].append("%s: ENGINE MISMATCH native run fails %s where the symbolic path satisfies it (inputs %s)" % (
-                    label, nat.failed[0][:2], json.dumps(inputs)[:300]))
+            elif sorted((f[0], f[1]) for f in nat.failed) != sorted((c["obl"], c["key"]) for c in pc.checks if c.get("uncond")):
+                res["inconclusive"].append("%s: ENGINE MISMATCH native failures %s differ from the symbolic path's (inputs %s)" % (
+                    label, [f[:2] for f in nat.failed][:2], json.dumps(inputs)[:300]))
             elif _plain(symobs) != _plain(natobs):
                 diff = next(((a, b) for a, b in zip(_plain(symobs), _plain(natobs)) if a != b), (len(symobs), len(natobs)))
                 res["inconclusive"].append("%s: ENGINE MISMATCH symbolic vs native observation %s (inputs %s)" % (
@@ -607,7 +619,12 @@ class _FuncProfile:
 
 
 def run_one_profiled(run_one, prof):
+    cnt = [0]
+
     def f(pc):
+        cnt[0] += 1
+        if cnt[0] > 1 and cnt[0] % 32:   # function coverage is sampled: the profile hook is slow under z3py
+            return run_one(pc)
         sys.setprofile(prof)
         try:
             run_one(pc)
